@@ -186,7 +186,10 @@ fn roc_roundtrip(run: &mut Run, pair: &mut RocPair, roc: u32, last: u16, seq: u1
     let pkt = spec.packet();
     pair.tx.verif_set_state(v, Some(seq), 0);
     let mut out = vec![0u8; pair.tx.protected_rtp_len(&pkt)];
-    if pair.tx.protect(&pkt, &mut out).is_err() { return 0; }
+    if let Err(e) = pair.tx.protect(&pkt, &mut out) {
+        run.fail(&format!("roc:protect-failed:{}", pair.prof), &format!("rocrt {} {roc} {last} {seq}", pair.prof), &format!("sender context at ROC {v}: protect → {e}"));
+        return 0;
+    }
     pair.rx.verif_set_state(roc, Some(last), 0);
     let res = SrtpPacket::parse(BytesMut::from(&out[..])).map_err(|e| e.to_string())
         .and_then(|p| pair.rx.unprotect(p).map_err(|e| e.to_string()));
@@ -558,7 +561,7 @@ fn history_case(rng: &mut Rng, i: usize, prof: &str) -> Case {
     let mut high: Vec<Option<u64>> = vec![None; nssrc];
     for _ in 0..n {
         let k = rng.below(nssrc as u64) as usize;
-        let plen = *rng.pick(&[0usize, 1, 3, 16, 20, 40]);
+        let plen = *rng.pick(&[0usize, 1, 3, 16, 20, 40, 160, 700, 1200]);
         ops.push(Op::ProtectRtp(0, shape(rng, (idx[k] & 0xffff) as u16, ssrcs[k], plen)));
         let me = (slot, k, idx[k]);
         slot += 1;
@@ -661,7 +664,7 @@ fn bigstate_cases(run: &mut Run, rng: &mut Rng, thorough: bool) {
     let reps = if thorough { 8 } else { 2 };
     for (pi, prof) in PROFILES.iter().enumerate() {
         for rep in 0..reps {
-            for (roc, idx) in [(0u32, 0xfffeu32), (1, 0xffff), (0xffff, 0x00ff_ffff), (0x7fff_ffff, 0x3fff_ffff), (0xffff_fffe, 0x7fff_fff0)] {
+            for (roc, idx) in [(0u32, 0xfffeu32), (1, 0xffff), (0xffff, 0x00ff_ffff), (0x7fff_ffff, 0x3fff_ffff), (0xffff_fff0, 0x7fff_fff0)] {
                 let mut ops = new_pair(rng, pi + rep, prof);
                 let ssrc = 0x4000 + rep as u32;
                 let seq0 = *rng.pick(&[5u16, 40000, 65530]);
